@@ -35,10 +35,17 @@ import (
 
 func c20rt(l zapcore.Level, err error) SX { return L(Z(int64(l)), Bool(err == nil)) }
 
+var c20panics int
+
+// a panic escaping from zap is a violation observed directly; the first few are reported with
+// their input, the rest only counted (!INFO panics_not_listed)
 func c20guard(c *Ctx, what string, replay SX, f func()) {
 	defer func() {
 		if p := recover(); p != nil {
-			c.Viol(fmt.Sprintf("panic escaped from %s: %v", what, p), replay)
+			c20panics++
+			if c20panics <= 3 {
+				c.Viol(fmt.Sprintf("panic escaped from %s: %v", what, p), replay)
+			}
 		}
 	}()
 	f()
@@ -756,7 +763,7 @@ func c20(c *Ctx) {
 		c20text(c, zapcore.Level(42), t, "directed")
 		c20text(c, zapcore.Level(int8(r.Range(-1, 5))), t, "directed")
 	}
-	nText := 2500
+	nText := 6000
 	if c.Thorough {
 		nText = 120000
 	}
@@ -787,7 +794,7 @@ func c20(c *Ctx) {
 			c20put(c20form, "", "level="+url.QueryEscape(strings.ToUpper(n))), {method: "GET"},
 			c20put(c20form, "level="+url.QueryEscape(n), ""), {method: "HEAD"}}, "http-directed")
 	}
-	nHist, maxLen := 1500, 14
+	nHist, maxLen := 3000, 14
 	if c.Thorough {
 		nHist, maxLen = 60000, 50
 	}
@@ -802,7 +809,7 @@ func c20(c *Ctx) {
 		}
 		c20history(c, c20genTarget(r), reqs, "http")
 	}
-	nSrv := 40
+	nSrv := 100
 	if c.Thorough {
 		nSrv = 1500
 	}
@@ -813,6 +820,9 @@ func c20(c *Ctx) {
 			reqs[i] = c20genReq(r, true)
 		}
 		c20served(c, c20genTarget(r), reqs, "http-served")
+	}
+	if c20panics > 3 {
+		c.Info("panics_not_listed", fmt.Sprint(c20panics-3))
 	}
 }
 
